@@ -37,7 +37,7 @@ RULE = ("One run = one live object of one of the ten classes in general position
         "filesystem), with malformed arguments, I/O faults inside exports, solver faults inside "
         "minimal_bounding_* and a different RNG seed for every repeat; half of the runs start "
         "with a hand-out prefix (getters returning arrays) and 15% interleave mutators, after "
-        "which the reference snapshot and the hand-out registry start afresh. Stratified prefix: run "
+        "which the reference snapshot starts afresh and handed-out arrays are re-frozen. Stratified prefix: run "
         "index i < sum(|alphabet(cls)|) fixes the first query (quick), i < sum(|alphabet|^2) the "
         "first ordered pair (thorough). After every step: observables (read from a deep copy) "
         "unchanged since the start, caller arrays bit-for-bit unchanged, every array handed out "
@@ -414,7 +414,10 @@ def execute(spec, world):
             snap_prev, skip_prev = snap0, skip0
             L = observe.length_scale(snap0)
             tol_geo = 1e-12 * L
-            registry = []
+            # a mutation may legitimately change arrays handed out earlier (they can be the
+            # shape's own storage): keep the references, re-freeze their current content -
+            # from here on queries must leave them alone again
+            registry = [(si, opn, path, ref, ref.copy()) for _, opn, path, ref, _f in registry]
             k0 = si + 1
             prev = "mutate"
             continue
